@@ -10,7 +10,10 @@
    into segments, see C18_transcription_is_segment_walk); [run] folds it over an operation list starting from the root map
    a DSOLModel creates ([init]); [valid_for c v] is the declared type / bounds /
    option list / quantity type of each class; identities ([h_id]) are creation
-   stamps, so they order parameters by insertion. *)
+   stamps; [h_seq] is the stamp of the insertion into the current map.  A state
+   is a forest: the model's tree ([st_root]) and the parent-less objects built
+   so far ([st_free]); [all_nodes] lists every parameter of all of them;
+   [same_obj] = same identity, key and priority. *)
 From Coq Require Import ZArith QArith List Bool String Ascii Sorted Permutation.
 From PV Require Import Params.Model Params.Proofs.
 Import ListNotations.
@@ -21,13 +24,13 @@ Local Open Scope list_scope.
    constructions that may fail, model-level sets / gets) a parameter's value
    always satisfies its declared type, bounds, option list or quantity type" *)
 Theorem C18_value_always_valid :
-  forall ops p, In p (nodes (st_root (run repaired init ops))) -> leaf_ok p.
+  forall ops p, In p (all_nodes (run repaired init ops)) -> leaf_ok p.
 Proof. exact value_always_valid. Qed.
 Print Assumptions C18_value_always_valid.
 
 (* the same from any well-formed state, e.g. a tree built earlier *)
 Theorem C18_value_always_valid_from :
-  forall st ops p, wf_state st -> In p (nodes (st_root (run repaired st ops))) -> leaf_ok p.
+  forall st ops p, wf_state st -> In p (all_nodes (run repaired st ops)) -> leaf_ok p.
 Proof. exact value_always_valid_from. Qed.
 Print Assumptions C18_value_always_valid_from.
 
@@ -51,7 +54,8 @@ Print Assumptions C18_set_value_decides.
    "a rejected attempt leaves the value unchanged" — every operation that
    raises leaves the whole tree as it was *)
 Theorem C18_rejected_unchanged :
-  forall st o e, snd (step repaired st o) = ORaise e -> st_root (fst (step repaired st o)) = st_root st.
+  forall st o e, snd (step repaired st o) = ORaise e ->
+    st_root (fst (step repaired st o)) = st_root st /\ st_free (fst (step repaired st o)) = st_free st.
 Proof. exact rejected_unchanged. Qed.
 Print Assumptions C18_rejected_unchanged.
 
@@ -63,8 +67,8 @@ Print Assumptions C18_rejected_unchanged.
 Theorem C18_default_never_changes :
   forall ops1 ops2 h ro c d v',
     let st1 := run repaired init ops1 in
-    In (Leaf h ro c d v') (nodes (st_root (run repaired st1 ops2))) -> (h_id h < st_next st1)%nat ->
-    exists v, In (Leaf h ro c d v) (nodes (st_root st1)).
+    In (Leaf h ro c d v') (all_nodes (run repaired st1 ops2)) -> (h_id h < st_next st1)%nat ->
+    exists h0 v, In (Leaf h0 ro c d v) (all_nodes st1) /\ same_obj h0 h.
 Proof. exact default_never_changes. Qed.
 Print Assumptions C18_default_never_changes.
 
@@ -72,29 +76,29 @@ Print Assumptions C18_default_never_changes.
 Theorem C18_read_only_never_changes :
   forall ops1 ops2 h c d v',
     let st1 := run repaired init ops1 in
-    In (Leaf h true c d v') (nodes (st_root (run repaired st1 ops2))) -> (h_id h < st_next st1)%nat ->
-    In (Leaf h true c d v') (nodes (st_root st1)).
+    In (Leaf h true c d v') (all_nodes (run repaired st1 ops2)) -> (h_id h < st_next st1)%nat ->
+    exists h0, In (Leaf h0 true c d v') (all_nodes st1) /\ same_obj h0 h.
 Proof. exact read_only_never_changes. Qed.
 Print Assumptions C18_read_only_never_changes.
 
 (* ... so a read-only parameter holds its default value for ever *)
 Theorem C18_read_only_value_is_default :
-  forall ops h c d v, In (Leaf h true c d v) (nodes (st_root (run repaired init ops))) -> v = d.
+  forall ops h c d v, In (Leaf h true c d v) (all_nodes (run repaired init ops)) -> v = d.
 Proof. exact read_only_value_is_default. Qed.
 Print Assumptions C18_read_only_value_is_default.
 
 (* parameters are named by identity (creation stamp) above; in every
    reachable tree identities are pairwise distinct, so the name is unambiguous *)
 Theorem C18_identities_unique :
-  forall ops, NoDup (map pid (nodes (st_root (run repaired init ops)))).
+  forall ops, NoDup (map pid (all_nodes (run repaired init ops))).
 Proof. exact ids_unique. Qed.
 Print Assumptions C18_identities_unique.
 
 (* general form, from any state *)
 Theorem C18_leaf_history :
   forall ops st h ro c d v',
-    In (Leaf h ro c d v') (nodes (st_root (run repaired st ops))) -> (h_id h < st_next st)%nat ->
-    exists v, In (Leaf h ro c d v) (nodes (st_root st)) /\ (ro = true -> v' = v).
+    In (Leaf h ro c d v') (all_nodes (run repaired st ops)) -> (h_id h < st_next st)%nat ->
+    exists h0 v, In (Leaf h0 ro c d v) (all_nodes st) /\ same_obj h0 h /\ (ro = true -> v' = v).
 Proof. exact leaf_history. Qed.
 Print Assumptions C18_leaf_history.
 
@@ -163,7 +167,7 @@ Print Assumptions C18_duplicate_refused.
    order": in every reachable tree, every map *)
 Theorem C18_children_sorted :
   forall ops h ch,
-    In (Map h ch) (nodes (st_root (run repaired init ops))) ->
+    In (Map h ch) (all_nodes (run repaired init ops)) ->
     StronglySorted hord_lt (map phdr ch) /\ NoDup (map pkey ch) /\ Forall key_ok (map pkey ch).
 Proof. exact children_sorted. Qed.
 Print Assumptions C18_children_sorted.
@@ -231,6 +235,23 @@ Theorem C18_readd_never_changes_the_tree :
   forall n root src dst, fst (step_root repaired n root (OReAdd src dst)) = root.
 Proof. exact readd_never_changes_the_tree. Qed.
 Print Assumptions C18_readd_never_changes_the_tree.
+
+(* ------------------------------------------------------------------ clauses 5 + 7, bottom-up construction
+   a parent-less object - with whatever was built below it before - that add()
+   accepts becomes a child of the addressed map: the tree stays well-formed
+   (sorted, distinct keys), the object is found under its key there and
+   everything below it under the path through it; by C18_get_by_extended_key
+   on the new tree the extended keys of all of them, which now start at the
+   root, resolve to them. *)
+Theorem C18_attach_registers :
+  forall n dst t T T',
+    wf n T -> wf n t -> key_ok (pkey t) ->
+    attach_seg dst (restamp n t) T = Val T' ->
+    wf (S n) T' /\ phdr T' = phdr T /\
+    node_at T' (psegs dst ++ [pkey t]) = Some (restamp n t) /\
+    forall l x, In (l, x) (paths t) -> l <> [] -> node_at T' (psegs dst ++ pkey t :: l) = Some x.
+Proof. exact attach_registers. Qed.
+Print Assumptions C18_attach_registers.
 
 (* ------------------------------------------------------------------ the snapshot 13808df
    On the pinned snapshot three clauses were false ([step pinned] transcribes
@@ -320,7 +341,7 @@ Example ex_wf : wf_state ex_state.
 Proof. exact (run_wf ex_ops init init_wf). Qed.
 
 Example ex_history_hyp :
-  exists h c d v, In (Leaf h true c d v) (nodes (st_root ex_state)) /\ (h_id h < st_next ex_state)%nat.
+  exists h c d v, In (Leaf h true c d v) (all_nodes ex_state) /\ (h_id h < st_next ex_state)%nat.
 Proof.
   exists (mkHdr 5 "s" 1), CStr, (VStr "fixed"), (VStr "fixed"). split; [in_list | vm_compute; repeat constructor].
 Qed.
@@ -356,6 +377,38 @@ Proof.
   split; [repeat (constructor; try (vm_compute; discriminate))|].
   split; vm_compute; reflexivity.
 Qed.
+
+(* bottom-up construction: parent-less maps are filled first and attached later;
+   before the attachment the extended keys start at the parent-less object,
+   afterwards at the root.  "server" (identity 1) is attached after "z"
+   (identity 6) of the same priority and is listed behind it: ties follow the
+   insertion, not the creation. *)
+Definition ex_bottom_up : list op :=
+  [ ONew (mkSpec "server" 1 true SMap VNone no_flaws);                                                   (* 1 *)
+    OFree 1 (OAddCtor None (mkSpec "rate" 2 false (SFloat (NI 0) (NI 10)) (VFloat (FFin 1.5)) no_flaws)); (* 2 *)
+    ONew (mkSpec "cfg" 1 true SMap VNone no_flaws);                                                      (* 3 *)
+    OFree 3 (OAddCtor None (mkSpec "n" 1 false (SInt (NI 0) (NI 10)) (VInt 5) no_flaws));                (* 4 *)
+    OFree 1 (OAttach 3 None);                                                                            (* 5 *)
+    OAddCtor None (mkSpec "z" 1 false SBool (VBool true) no_flaws);                                      (* 6 *)
+    OAttach 1 None;                                                                                      (* 7 *)
+    OSet "server.cfg.n" (VInt 7);
+    ONew (mkSpec "server" 5 true SMap VNone no_flaws);                                                   (* 9 *)
+    OAttach 9 None ].                                                                                    (* duplicate key: refused *)
+
+Example ex_bottom_up_before :
+  map (fun e => fst (fst (fst e))) (dump_state (run repaired init (firstn 4 ex_bottom_up))) =
+  ["root"; "server"; "server.rate"; "cfg"; "cfg.n"].
+Proof. vm_compute. reflexivity. Qed.
+
+Example ex_bottom_up_after :
+  map (fun e => (fst (fst (fst e)), snd (fst (fst e)))) (dump_state (run repaired init ex_bottom_up)) =
+  [("root", 0%nat); ("root.z", 6%nat); ("root.server", 1%nat); ("root.server.cfg", 3%nat);
+   ("root.server.cfg.n", 4%nat); ("root.server.rate", 2%nat); ("server", 9%nat)].
+Proof. vm_compute. reflexivity. Qed.
+
+Example ex_bottom_up_outcomes :
+  outs init ex_bottom_up = [ONone; ONone; ONone; ONone; ONone; ONone; ONone; ONone; ONone; ORaise ValueError].
+Proof. vm_compute. reflexivity. Qed.
 
 (* ------------------------------------------------------------------ the tie to the source TEXT
    Params/Gen_Params.v is regenerated on every run by translator/py2gallina_params.py from
@@ -393,7 +446,7 @@ Print Assumptions C18_generated_model_is_the_proved_model.
 (* clause 1 over the generated functions: a history run through the generated constructors,
    set_value methods, add / get / remove and model accessors never leaves an invalid value *)
 Theorem C18_generated_value_always_valid :
-  forall ops p, In p (nodes (st_root (gen_run init ops))) -> leaf_ok p.
+  forall ops p, In p (all_nodes (gen_run init ops)) -> leaf_ok p.
 Proof. exact gen_value_always_valid. Qed.
 Print Assumptions C18_generated_value_always_valid.
 
@@ -410,13 +463,14 @@ Print Assumptions C18_generated_set_value_decides.
 
 (* clause 2 *)
 Theorem C18_generated_rejected_unchanged :
-  forall st o e, snd (gen_step st o) = ORaise e -> st_root (fst (gen_step st o)) = st_root st.
+  forall st o e, snd (gen_step st o) = ORaise e ->
+    st_root (fst (gen_step st o)) = st_root st /\ st_free (fst (gen_step st o)) = st_free st.
 Proof. exact gen_rejected_unchanged. Qed.
 Print Assumptions C18_generated_rejected_unchanged.
 
 (* clauses 3, 4 *)
 Theorem C18_generated_read_only_value_is_default :
-  forall ops h c d v, In (Leaf h true c d v) (nodes (st_root (gen_run init ops))) -> v = d.
+  forall ops h c d v, In (Leaf h true c d v) (all_nodes (gen_run init ops)) -> v = d.
 Proof. exact gen_read_only_value_is_default. Qed.
 Print Assumptions C18_generated_read_only_value_is_default.
 
